@@ -1,6 +1,6 @@
 (* C19: composition of the per-packet / per-party results into one statement about the two-party system
    (Model/NodeProto.v: exec over schedules) for every honest schedule with arbitrary chunking. *)
-From Coq Require Import List NArith ZArith Bool Lia.
+From Coq Require Import List NArith ZArith Bool Lia Permutation.
 From Circ Require Import Model.NodeProto Proofs.NodeProtoP.
 Import ListNotations.
 
@@ -24,7 +24,7 @@ Section E2E.
   Variable dumps : json -> option (list N).
   Variable loads : list N -> option (option json).
   Variables fw_send fw_recv : event -> bool.
-  Variable handler : event -> option (option json).
+  Variable handler : event -> hres.
   Variable b_chan : json.
   Variable ser : json -> list N.
   Hypothesis laws : json_laws dumps loads ser.
@@ -64,150 +64,113 @@ Section E2E.
        efailure := efailure e; enotify := enotify e;
        echannels := match echannels e with [] => [b_chan] | l => l end;
        eattrs := apply_meta excl (dump_meta_ev excl e) [] |}.
-  (* what the peer answers: None = a handler raises (no answer), Some v = value v *)
-  Definition outcome (e : event) : option json :=
-    if fw_recv (ev1 e) then
-      match handler (ev2 e) with Some None => None | Some (Some r) => Some r | None => Some JNull end
-    else Some JNull.
+  (* what the peer answers: class of the answer (order on the wire within one read), value, error flag *)
+  Definition kind (e : event) : nat :=
+    if fw_recv (ev1 e) then match handler (ev2 e) with HRaise true => 3 | HRaise false => 2 | _ => 1 end else 0.
+  Definition oval (e : event) : json :=
+    if fw_recv (ev1 e) then match handler (ev2 e) with HVal r => r | HRaise _ => JERR | HNone => JNull end
+    else JNull.
+  Definition oerr (e : event) : bool :=
+    if fw_recv (ev1 e) then match handler (ev2 e) with HRaise _ => true | _ => false end else false.
   Definition logof (e : event) : list event :=
-    if fw_recv (ev1 e) then match handler (ev2 e) with Some _ => [ev2 e] | None => [] end else [].
+    if fw_recv (ev1 e) then match handler (ev2 e) with HNone => [] | _ => [ev2 e] end else [].
   Definition cpkt (j : nat) (e : event) : json := event_data excl e (JInt (Z.of_nat j)).
-  Definition rpkt (j : nat) (e : event) (v : json) : json :=
-    value_data excl (JInt (Z.of_nat j)) (JBool false) v (ev1 e).
+  Definition rpkt (j : nat) (e : event) : json :=
+    value_data excl (JInt (Z.of_nat j)) (JBool (oerr e)) (oval e) (ev1 e).
 
   Notation bpacket := (b_packet excl dumps DELIM fw_recv handler b_chan).
   Notation bpackets := (b_packets excl dumps DELIM fw_recv handler b_chan).
 
-  Definition now_bytes (j : nat) (e : event) : list N :=
-    if fw_recv (ev1 e) then [] else enc (rpkt j e JNull) ++ DELIM.
-  Definition later_bytes (j : nat) (e : event) : list N :=
-    if fw_recv (ev1 e) then match outcome e with Some v => enc (rpkt j e v) ++ DELIM | None => [] end else [].
-
   Lemma b_packet_honest : forall j e, wf_event e ->
-    bpacket (cpkt j e) = (logof e, now_bytes j e, later_bytes j e, false, false).
+    bpacket (cpkt j e) = (logof e, [(kind e, enc (rpkt j e) ++ DELIM)], false, false).
   Proof.
     intros j e Hwf. unfold NodeProto.b_packet, cpkt.
     change (is_miss (event_data excl e (JInt (Z.of_nat j)))) with false. cbv iota.
     change (is_value (event_data excl e (JInt (Z.of_nat j)))) with (@None (list (list N * json))).
     cbv iota. rewrite (serial excl e _ Hwf). fold (ev1 e).
-    unfold logof, now_bytes, later_bytes, outcome.
+    unfold logof, kind, rpkt, oval, oerr.
     destruct (fw_recv (ev1 e)) eqn:Hf.
     - change {| ename := ename (ev1 e); eargs := eargs (ev1 e); ekwargs := ekwargs (ev1 e); esuccess := true;
                 efailure := efailure (ev1 e); enotify := enotify (ev1 e);
                 echannels := match echannels (ev1 e) with [] => [b_chan] | l => l end;
                 eattrs := eattrs (ev1 e) |} with (ev2 e).
-      destruct (handler (ev2 e)) as [[r|]|]; cbn [no_reply]; try rewrite packet_eq; reflexivity.
+      cbv zeta. cbn [no_reply]. rewrite packet_eq.
+      destruct (handler (ev2 e)) as [|r|[|]]; reflexivity.
     - rewrite packet_eq. reflexivity.
   Qed.
 
   (* ---- a batch of honest call packets *)
   Definition cp (je : nat * event) : json := cpkt (fst je) (snd je).
-  Definition rp (x : nat * event * json) : json := rpkt (fst (fst x)) (snd (fst x)) (snd x).
-  Definition rej (la : list (nat * event)) : list (nat * event * json) :=
-    flat_map (fun je => if fw_recv (ev1 (snd je)) then [] else [(je, JNull)]) la.
-  Definition res (la : list (nat * event)) : list (nat * event * json) :=
-    flat_map (fun je => if fw_recv (ev1 (snd je))
-                        then match outcome (snd je) with Some v => [(je, v)] | None => [] end
-                        else []) la.
+  Definition rp (je : nat * event) : json := rpkt (fst je) (snd je).
+  Definition rid (x : nat * event) : nat := fst x.
+  Definition pk (k : nat) (la : list (nat * event)) : list (nat * event) :=
+    filter (fun je => Nat.eqb (kind (snd je)) k) la.
+  Definition newR (la : list (nat * event)) := pk 0 la ++ pk 1 la ++ pk 2 la ++ pk 3 la.
 
   Lemma frm_cons : forall p ps, frm (p :: ps) = enc p ++ DELIM ++ frm ps.
   Proof. intros. unfold frames. simpl. rewrite <- app_assoc. reflexivity. Qed.
 
   Lemma b_packets_honest : forall la, Forall (fun je => wf_event (snd je)) la ->
     bpackets (map cp la) =
-    (flat_map (fun je => logof (snd je)) la, frm (map rp (rej la)), frm (map rp (res la)), false, false).
+    (flat_map (fun je => logof (snd je)) la, map (fun je => (kind (snd je), enc (rp je) ++ DELIM)) la, false, false).
   Proof.
     induction la as [|[j e] la IH]; intros Hwf; [reflexivity|].
     inversion Hwf as [|? ? He Hla]; subst. simpl in He.
     cbn [map NodeProto.b_packets]. unfold cp at 1. cbn [fst snd].
-    rewrite (b_packet_honest j e He). cbv iota. rewrite (IH Hla). cbn [orb].
-    unfold rej, res. cbn [flat_map fst snd]. fold (rej la). fold (res la).
-    unfold now_bytes, later_bytes.
-    destruct (fw_recv (ev1 e)) eqn:Hf.
-    - destruct (outcome e) as [v|]; cbn [app map]; [|reflexivity].
-      unfold rp at 2. cbn [fst snd]. rewrite frm_cons, <- !app_assoc. reflexivity.
-    - cbn [app map]. unfold rp at 1. cbn [fst snd]. rewrite frm_cons, <- !app_assoc. reflexivity.
+    rewrite (b_packet_honest j e He). cbv iota. rewrite (IH Hla). reflexivity.
   Qed.
 
-  Lemma in_rej : forall la x, In x (rej la) -> In (fst x) la /\ snd x = JNull /\ fw_recv (ev1 (snd (fst x))) = false.
+  Lemma pick_frames : forall k la,
+    pick k (map (fun je => (kind (snd je), enc (rp je) ++ DELIM)) la) = frm (map rp (pk k la)).
   Proof.
-    intros la x H. apply in_flat_map in H. destruct H as [je [Hin Hx]].
-    destruct (fw_recv (ev1 (snd je))) eqn:Hf; [destruct Hx|]. destruct Hx as [<-|[]]. auto.
+    intros k la. unfold pick, pk. induction la as [|je la IH]; [reflexivity|].
+    cbn [map filter fst]. destruct (Nat.eqb (kind (snd je)) k); [|exact IH].
+    cbn [map concat snd]. rewrite IH, frm_cons, <- app_assoc. reflexivity.
   Qed.
 
-  Lemma in_res : forall la x, In x (res la) ->
-    In (fst x) la /\ fw_recv (ev1 (snd (fst x))) = true /\ outcome (snd (fst x)) = Some (snd x).
+  Lemma kind_le : forall e, kind e = 0 \/ kind e = 1 \/ kind e = 2 \/ kind e = 3.
   Proof.
-    intros la x H. apply in_flat_map in H. destruct H as [je [Hin Hx]].
-    destruct (fw_recv (ev1 (snd je))) eqn:Hf; [|destruct Hx].
-    destruct (outcome (snd je)) eqn:Ho; [|destruct Hx]. destruct Hx as [<-|[]]. auto.
+    intros e. unfold kind. destruct (fw_recv (ev1 e)); [|auto].
+    destruct (handler (ev2 e)) as [|r|[|]]; auto.
   Qed.
 
-  Lemma outcome_rej : forall e, fw_recv (ev1 e) = false -> outcome e = Some JNull.
-  Proof. intros e H. unfold outcome. rewrite H. reflexivity. Qed.
-
-  (* every processed call with an answer has its answer among the new replies *)
-  Lemma in_new : forall la je v, In je la -> outcome (snd je) = Some v -> In (je, v) (rej la ++ res la).
+  Lemma perm_new : forall la, Permutation (newR la) la.
   Proof.
-    intros la je v Hin Ho. apply in_or_app. destruct (fw_recv (ev1 (snd je))) eqn:Hf.
-    - right. apply in_flat_map. exists je. split; [exact Hin|]. rewrite Hf, Ho. left. reflexivity.
-    - left. apply in_flat_map. exists je. split; [exact Hin|]. rewrite Hf.
-      rewrite (outcome_rej _ Hf) in Ho. inversion Ho. left. reflexivity.
+    induction la as [|je la IH]; [constructor|]. unfold newR, pk in *. cbn [filter].
+    destruct (kind_le (snd je)) as [H|[H|[H|H]]]; rewrite H; cbn [Nat.eqb app].
+    - constructor. exact IH.
+    - apply Permutation_sym, Permutation_cons_app, Permutation_sym. exact IH.
+    - apply Permutation_sym. rewrite app_assoc. apply Permutation_cons_app.
+      rewrite <- app_assoc. apply Permutation_sym. exact IH.
+    - apply Permutation_sym. rewrite 2 app_assoc. apply Permutation_cons_app.
+      rewrite <- 2 app_assoc. apply Permutation_sym. exact IH.
   Qed.
 
-  Definition rid (x : nat * event * json) : nat := fst (fst x).
-
-  Lemma NoDup_new : forall la, NoDup (map fst la) -> NoDup (map rid (rej la ++ res la)).
+  Lemma in_new : forall la je, In je (newR la) <-> In je la.
   Proof.
-    intros la Hnd. rewrite map_app.
-    assert (Hr : NoDup (map rid (rej la))).
-    { induction la as [|[j e] la IH]; [constructor|]. inversion Hnd as [|? ? Hni Hnd']; subst.
-      unfold rej. cbn [flat_map snd]. fold (rej la). destruct (fw_recv (ev1 e)); [apply IH; exact Hnd'|].
-      cbn [app map]. constructor; [|apply IH; exact Hnd'].
-      intros Hi. apply Hni. apply in_map_iff in Hi. destruct Hi as [x [Hx Hin]]. apply in_rej in Hin.
-      destruct Hin as [Hin _]. apply in_map_iff. exists (fst x). split; [exact Hx|exact Hin]. }
-    assert (Hs : NoDup (map rid (res la))).
-    { clear Hr. induction la as [|[j e] la IH]; [constructor|]. inversion Hnd as [|? ? Hni Hnd']; subst.
-      unfold res. cbn [flat_map snd]. fold (res la).
-      destruct (fw_recv (ev1 e)); [|apply IH; exact Hnd'].
-      destruct (outcome e); [|apply IH; exact Hnd'].
-      cbn [app map]. constructor; [|apply IH; exact Hnd'].
-      intros Hi. apply Hni. apply in_map_iff in Hi. destruct Hi as [x [Hx Hin]]. apply in_res in Hin.
-      destruct Hin as [Hin _]. apply in_map_iff. exists (fst x). split; [exact Hx|exact Hin]. }
-    (* disjoint: an id occurs once in la, and its event is either rejected or not *)
-    assert (Huniq : forall a b, In a la -> In b la -> fst a = fst b -> a = b).
-    { clear Hr Hs. induction la as [|c la IH]; intros a b Ha Hb Hab; [destruct Ha|].
-      inversion Hnd as [|? ? Hni Hnd']; subst.
-      destruct Ha as [<-|Ha]; destruct Hb as [<-|Hb]; try reflexivity.
-      - exfalso. apply Hni. rewrite Hab. apply in_map. exact Hb.
-      - exfalso. apply Hni. rewrite <- Hab. apply in_map. exact Ha.
-      - apply IH; assumption. }
-    revert Hr Hs. generalize (fun x => in_rej la x) (fun x => in_res la x).
-    generalize (rej la) (res la). intros l1 l2 H1 H2 Hr Hs.
-    induction l1 as [|x l1 IH]; [exact Hs|]. cbn [map app]. inversion Hr as [|? ? Hni Hr']; subst.
-    constructor.
-    - intros Hi. apply in_app_or in Hi. destruct Hi as [Hi|Hi]; [contradiction|].
-      apply in_map_iff in Hi. destruct Hi as [y [Hy Hin]].
-      destruct (H1 x (or_introl eq_refl)) as (Hx1 & _ & Hx3).
-      destruct (H2 y Hin) as (Hy1 & Hy2 & _).
-      assert (E : fst y = fst x) by (apply Huniq; assumption).
-      rewrite E in Hy2. rewrite Hy2 in Hx3. discriminate.
-    - apply IH; [intros y Hy; apply H1; right; exact Hy|exact Hr'].
+    intros la je. split; intros H.
+    - apply (Permutation_in _ (perm_new la) H).
+    - apply (Permutation_in _ (Permutation_sym (perm_new la)) H).
+  Qed.
+
+  Lemma NoDup_new : forall la, NoDup (map fst la) -> NoDup (map rid (newR la)).
+  Proof.
+    intros la H. apply (Permutation_NoDup (Permutation_sym (Permutation_map fst (perm_new la)))). exact H.
   Qed.
 
   (* ---- the caller's bookkeeping as a list of entries, one per send, in order *)
-  Inductive status := Rej | NoRes (j : nat) | Wait (j : nat) | Fin (j : nat) (v : json).
+  Inductive status := Rej | NoRes (j : nat) | Wait (j : nat) | Fin (j : nat).
   Record ent := { en_e : event; en_m : smode; en_s : status }.
 
   Definition meta_of (e : event) := filter (fun p => allowed excl (fst p)) (dump_meta excl (ev1 e)).
-  Definition final (e : event) (v : json) : call := set_value call0 v (JBool false) (meta_of e).
+  Definition final (e : event) : call := set_value call0 (oval e) (JBool (oerr e)) (meta_of e).
   Definition rej_call (m : smode) : call :=
     {| c_fin := match m with MNoResApi => false | _ => true end; c_res := false; c_val := JNull; c_err := None |}.
   Definition call_of (en : ent) : call :=
     match en_s en with
     | Rej => rej_call (en_m en)
     | NoRes _ | Wait _ => call0
-    | Fin _ v => final (en_e en) v
+    | Fin _ => final (en_e en)
     end.
   Fixpoint pend_of (k : nat) (ents : list ent) : list (Z * nat) :=
     match ents with
@@ -215,21 +178,21 @@ Section E2E.
     | en :: r => match en_s en with Wait j => [(Z.of_nat j, k)] | _ => [] end ++ pend_of (S k) r
     end.
   Definition acc1 (en : ent) : list (nat * event) :=
-    match en_s en with Rej => [] | NoRes j | Wait j | Fin j _ => [(j, en_e en)] end.
+    match en_s en with Rej => [] | NoRes j | Wait j | Fin j => [(j, en_e en)] end.
   Definition acc (ents : list ent) := flat_map acc1 ents.
   Definition wait1 (en : ent) : list nat := match en_s en with Wait j => [j] | _ => [] end.
   Definition waits (ents : list ent) := flat_map wait1 ents.
-  Definition mark (j : nat) (v : json) (en : ent) : ent :=
+  Definition mark (j : nat) (en : ent) : ent :=
     match en_s en with
-    | Wait j' => if Nat.eqb j' j then {| en_e := en_e en; en_m := en_m en; en_s := Fin j v |} else en
+    | Wait j' => if Nat.eqb j' j then {| en_e := en_e en; en_m := en_m en; en_s := Fin j |} else en
     | _ => en
     end.
-  Definition marks (ra : list (nat * event * json)) (ents : list ent) : list ent :=
-    fold_left (fun es x => map (mark (rid x) (snd x)) es) ra ents.
+  Definition marks (ra : list (nat * event)) (ents : list ent) : list ent :=
+    fold_left (fun es x => map (mark (rid x)) es) ra ents.
 
-  Lemma mark_noop : forall j v ents, ~ In j (waits ents) -> map (mark j v) ents = ents.
+  Lemma mark_noop : forall j ents, ~ In j (waits ents) -> map (mark j) ents = ents.
   Proof.
-    intros j v ents. induction ents as [|en r IH]; intros H; [reflexivity|].
+    intros j ents. induction ents as [|en r IH]; intros H; [reflexivity|].
     cbn [map]. unfold waits in H. cbn [flat_map] in H. fold (waits r) in H.
     rewrite IH by (intros Hi; apply H; apply in_or_app; right; exact Hi). f_equal.
     unfold mark. destruct (en_s en) eqn:E; try reflexivity.
@@ -237,28 +200,28 @@ Section E2E.
     exfalso. apply H. apply in_or_app. left. unfold wait1. rewrite E. left. reflexivity.
   Qed.
 
-  Lemma waits_mark : forall j v ents,
-    waits (map (mark j v) ents) = filter (fun x => negb (Nat.eqb x j)) (waits ents).
+  Lemma waits_mark : forall j ents,
+    waits (map (mark j) ents) = filter (fun x => negb (Nat.eqb x j)) (waits ents).
   Proof.
-    intros j v ents. induction ents as [|en r IH]; [reflexivity|].
+    intros j ents. induction ents as [|en r IH]; [reflexivity|].
     unfold waits in *. cbn [map flat_map]. rewrite filter_app, IH. f_equal.
     unfold mark, wait1. destruct (en_s en) eqn:E; try (rewrite E; reflexivity).
     destruct (Nat.eqb j0 j) eqn:Ej; cbn [en_s filter]; [rewrite Ej; reflexivity|rewrite E; cbn [filter]; rewrite Ej; reflexivity].
   Qed.
 
-  Lemma acc_mark : forall j v ents, acc (map (mark j v) ents) = acc ents.
+  Lemma acc_mark : forall j ents, acc (map (mark j) ents) = acc ents.
   Proof.
-    intros j v ents. induction ents as [|en r IH]; [reflexivity|].
+    intros j ents. induction ents as [|en r IH]; [reflexivity|].
     unfold acc in *. cbn [map flat_map]. rewrite IH. f_equal.
     unfold mark, acc1. destruct (en_s en) eqn:E; try (rewrite E; reflexivity).
     destruct (Nat.eqb j0 j) eqn:Ej; cbn [en_s en_e]; [|rewrite E; reflexivity].
     apply Nat.eqb_eq in Ej. subst. reflexivity.
   Qed.
 
-  Lemma in_mark_wait : forall j v ents en j', In en (map (mark j v) ents) -> en_s en = Wait j' ->
+  Lemma in_mark_wait : forall j ents en j', In en (map (mark j) ents) -> en_s en = Wait j' ->
     In en ents /\ j' <> j.
   Proof.
-    intros j v ents en j' Hin Hs. apply in_map_iff in Hin. destruct Hin as [en0 [Hm Hin0]].
+    intros j ents en j' Hin Hs. apply in_map_iff in Hin. destruct Hin as [en0 [Hm Hin0]].
     unfold mark in Hm. destruct (en_s en0) eqn:E; try (subst en; auto; rewrite E in Hs; discriminate).
     destruct (Nat.eqb j0 j) eqn:Ej.
     - subst en. cbn in Hs. discriminate.
@@ -277,12 +240,12 @@ Section E2E.
   Qed.
 
   (* a reply for a waiting id is routed to the position of its entry and turns it into Fin *)
-  Lemma route : forall j v f ents k, NoDup (waits ents) -> In j (waits ents) ->
-    (forall en, In en ents -> en_s en = Wait j -> f call0 = final (en_e en) v) ->
+  Lemma route : forall j f ents k, NoDup (waits ents) -> In j (waits ents) ->
+    (forall en, In en ents -> en_s en = Wait j -> f call0 = final (en_e en)) ->
     exists i, zget (Z.of_nat j) (pend_of k ents) = Some (k + i) /\
-              upd i f (map call_of ents) = map call_of (map (mark j v) ents).
+              upd i f (map call_of ents) = map call_of (map (mark j) ents).
   Proof.
-    intros j v f ents. induction ents as [|en r IH]; intros k Hnd Hin Hf; [destruct Hin|].
+    intros j f ents. induction ents as [|en r IH]; intros k Hnd Hin Hf; [destruct Hin|].
     unfold waits in Hnd, Hin. cbn [flat_map] in Hnd, Hin. fold (waits r) in Hnd, Hin.
     cbn [pend_of map]. unfold wait1 in Hnd, Hin. destruct (en_s en) eqn:E; cbn [app] in *.
     1,2,4: destruct (IH (S k) Hnd Hin (fun en' H' => Hf en' (or_intror H'))) as [i [Hz Hu]];
@@ -291,7 +254,7 @@ Section E2E.
     inversion Hnd as [|? ? Hni Hnd']; subst.
     destruct (Nat.eq_dec j0 j) as [->|Hne].
     - exists 0. cbn [zget]. rewrite Z.eqb_refl. split; [f_equal; lia|].
-      cbn [upd]. rewrite (mark_noop j v r Hni). f_equal.
+      cbn [upd]. rewrite (mark_noop j r Hni). f_equal.
       unfold call_of at 1. rewrite E. rewrite (Hf en (or_introl eq_refl) E).
       unfold mark. rewrite E, Nat.eqb_refl. reflexivity.
     - destruct Hin as [Hin|Hin]; [contradiction|].
@@ -304,10 +267,10 @@ Section E2E.
       destruct (Nat.eqb j0 j) eqn:Ej; [apply Nat.eqb_eq in Ej; contradiction|reflexivity].
   Qed.
 
-  Lemma zget_mark : forall j j' v ents k, j <> j' ->
-    zget (Z.of_nat j) (pend_of k (map (mark j' v) ents)) = zget (Z.of_nat j) (pend_of k ents).
+  Lemma zget_mark : forall j j' ents k, j <> j' ->
+    zget (Z.of_nat j) (pend_of k (map (mark j') ents)) = zget (Z.of_nat j) (pend_of k ents).
   Proof.
-    intros j j' v ents. induction ents as [|en r IH]; intros k Hne; [reflexivity|].
+    intros j j' ents. induction ents as [|en r IH]; intros k Hne; [reflexivity|].
     cbn [map pend_of]. unfold mark at 1. destruct (en_s en) eqn:E; try (rewrite E; cbn [app]; apply IH; exact Hne).
     destruct (Nat.eqb j0 j') eqn:Ej.
     - cbn [en_s app]. apply Nat.eqb_eq in Ej. subst j0. cbn [zget].
@@ -322,40 +285,40 @@ Section E2E.
 
   Lemma a_batch : forall ra pend ents, NoDup (map rid ra) -> NoDup (waits ents) ->
     (forall x, In x ra -> zget (Z.of_nat (rid x)) pend = zget (Z.of_nat (rid x)) (pend_of 0 ents)) ->
-    (forall x en, In x ra -> In en ents -> en_s en = Wait (rid x) -> en_e en = snd (fst x)) ->
+    (forall x en, In x ra -> In en ents -> en_s en = Wait (rid x) -> en_e en = snd x) ->
     apackets pend (map call_of ents) (map rp ra) = (map call_of (marks ra ents), false, false).
   Proof.
-    induction ra as [|[[j e] v] ra IH]; intros pend ents Hnd Hw Hz He; [reflexivity|].
+    induction ra as [|[j e] ra IH]; intros pend ents Hnd Hw Hz He; [reflexivity|].
     inversion Hnd as [|? ? Hni Hnd']; subst.
-    cbn [map NodeProto.a_packets marks fold_left]. fold (marks ra (map (mark j v) ents)).
+    cbn [map NodeProto.a_packets marks fold_left]. fold (marks ra (map (mark j) ents)).
     unfold rp at 1, rpkt. cbn [fst snd].
     assert (Hstep : apacket pend (map call_of ents)
-                      (value_data excl (JInt (Z.of_nat j)) (JBool false) v (ev1 e))
-                    = (map call_of (map (mark j v) ents), false, false)).
-    { specialize (Hz (j, e, v) (or_introl eq_refl)). cbn [rid fst] in Hz.
+                      (value_data excl (JInt (Z.of_nat j)) (JBool (oerr e)) (oval e) (ev1 e))
+                    = (map call_of (map (mark j) ents), false, false)).
+    { specialize (Hz (j, e) (or_introl eq_refl)). cbn [rid fst] in Hz.
       destruct (in_dec Nat.eq_dec j (waits ents)) as [Hin|Hnin].
-      - destruct (route j v (fun c => set_value c v (JBool false) (meta_of e)) ents 0 Hw Hin) as [i [Hzi Hu]].
-        { intros en Hen Hs. rewrite (He (j, e, v) en (or_introl eq_refl) Hen Hs). reflexivity. }
+      - destruct (route j (fun c => set_value c (oval e) (JBool (oerr e)) (meta_of e)) ents 0 Hw Hin) as [i [Hzi Hu]].
+        { intros en Hen Hs. rewrite (He (j, e) en (or_introl eq_refl) Hen Hs). reflexivity. }
         rewrite <- Hz in Hzi. cbn [Nat.add] in Hzi.
-        rewrite (result_routing excl pend _ _ i v (JBool false) (ev1 e) Hzi eq_refl).
+        rewrite (result_routing excl pend _ _ i (oval e) (JBool (oerr e)) (ev1 e) Hzi eq_refl).
         unfold meta_of in Hu. rewrite Hu. reflexivity.
       - rewrite (zget_notin_waits j ents 0 Hnin) in Hz.
-        rewrite (unregistered_reply_ignored excl pend _ _ v (JBool false) (ev1 e) Hz eq_refl).
-        rewrite (mark_noop j v ents Hnin). reflexivity. }
+        rewrite (unregistered_reply_ignored excl pend _ _ (oval e) (JBool (oerr e)) (ev1 e) Hz eq_refl).
+        rewrite (mark_noop j ents Hnin). reflexivity. }
     rewrite Hstep. cbv iota.
-    rewrite (IH pend (map (mark j v) ents)); [reflexivity|exact Hnd'| | |].
+    rewrite (IH pend (map (mark j) ents)); [reflexivity|exact Hnd'| | |].
     - rewrite waits_mark. apply NoDup_filter. exact Hw.
     - intros x Hx. rewrite (Hz x (or_intror Hx)). symmetry. apply zget_mark.
       intros Heq. apply Hni. cbn [rid fst]. rewrite <- Heq. apply (in_map rid). exact Hx.
-    - intros x en Hx Hen Hs. destruct (in_mark_wait j v ents en (rid x) Hen Hs) as [Hen0 _].
+    - intros x en Hx Hen Hs. destruct (in_mark_wait j ents en (rid x) Hen Hs) as [Hen0 _].
       apply (He x en (or_intror Hx) Hen0 Hs).
   Qed.
 
   (* between two reads the finished calls leave the table *)
   Definition evo (en en' : ent) : Prop :=
-    en' = en \/ exists j v, en_s en = Wait j /\ en_s en' = Fin j v.
+    en' = en \/ exists j, en_s en = Wait j /\ en_s en' = Fin j.
 
-  Lemma final_fin : forall e v, c_fin (final e v) = true.
+  Lemma final_fin : forall e, c_fin (final e) = true.
   Proof. reflexivity. Qed.
 
   Lemma filter_pend : forall ents ents', Forall2 evo ents ents' -> forall k pre, length pre = k ->
@@ -371,22 +334,22 @@ Section E2E.
         by (rewrite <- app_assoc; reflexivity).
       apply IH. rewrite app_length. simpl. lia. }
     rewrite filter_app, Hrest. f_equal.
-    destruct Hev as [->|(j & v & Hs & Hs')].
+    destruct Hev as [->|(j & Hs & Hs')].
     - destruct (en_s en) eqn:E; try reflexivity.
       cbn [filter]. unfold finished. cbn [snd]. rewrite Hnth. unfold call_of. rewrite E. reflexivity.
     - rewrite Hs, Hs'. cbn [filter]. unfold finished. cbn [snd]. rewrite Hnth.
       unfold call_of. rewrite Hs'. rewrite final_fin. reflexivity.
   Qed.
 
-  Lemma evo_mark : forall j v ents es, Forall2 evo ents es -> Forall2 evo ents (map (mark j v) es).
+  Lemma evo_mark : forall j ents es, Forall2 evo ents es -> Forall2 evo ents (map (mark j) es).
   Proof.
-    intros j v ents es H. induction H as [|en en' r r' Hev Hr IH]; [constructor|].
+    intros j ents es H. induction H as [|en en' r r' Hev Hr IH]; [constructor|].
     cbn [map]. constructor; [|exact IH].
-    destruct Hev as [->|(j0 & v0 & Hs & Hs')].
+    destruct Hev as [->|(j0 & Hs & Hs')].
     - unfold mark. destruct (en_s en) eqn:E; try (left; reflexivity).
       destruct (Nat.eqb j0 j) eqn:Ej; [|left; reflexivity].
-      right. exists j0, v. apply Nat.eqb_eq in Ej. subst. split; [exact E|reflexivity].
-    - right. exists j0, v0. split; [exact Hs|]. unfold mark. rewrite Hs'. exact Hs'.
+      right. exists j0. apply Nat.eqb_eq in Ej. subst. split; [exact E|reflexivity].
+    - right. exists j0. split; [exact Hs|]. unfold mark. rewrite Hs'. exact Hs'.
   Qed.
 
   Lemma evo_marks : forall ra ents es, Forall2 evo ents es -> Forall2 evo ents (marks ra es).
@@ -450,10 +413,10 @@ Section E2E.
     | Rej => fw_send (en_e en) = false
     | NoRes _ => fw_send (en_e en) = true /\ en_m en <> MCall
     | Wait _ => fw_send (en_e en) = true /\ en_m en = MCall
-    | Fin _ v => fw_send (en_e en) = true /\ en_m en = MCall /\ outcome (en_e en) = Some v
+    | Fin _ => fw_send (en_e en) = true /\ en_m en = MCall
     end.
 
-  Record GI (ents : list ent) (done todo : list (nat * event)) (R : list (nat * event * json)) (s : st)
+  Record GI (ents : list ent) (done todo : list (nat * event)) (R : list (nat * event)) (s : st)
     : Prop := {
     g_nid : a_nid s = Z.of_nat (length (acc ents));
     g_calls : a_calls s = map call_of ents;
@@ -466,9 +429,8 @@ Section E2E.
     g_log : b_log s = flat_map (fun je => logof (snd je)) done;
     g_ba : FInv (a_buf s) (wba s) (map rp R);
     g_rnd : NoDup (map rid R);
-    g_rin : forall x, In x R -> In (fst x) done /\ outcome (snd (fst x)) = Some (snd x);
-    g_wait : forall en j v, In en ents -> en_s en = Wait j -> In (j, en_e en) done ->
-                            outcome (en_e en) = Some v -> In (j, en_e en, v) R
+    g_rin : forall x, In x R -> In x done;
+    g_wait : forall en j, In en ents -> en_s en = Wait j -> In (j, en_e en) done -> In (j, en_e en) R
   }.
 
   Definition sig (en : ent) : event * smode := (en_e en, en_m en).
@@ -512,8 +474,8 @@ Section E2E.
       + exact g_ba0.
       + exact g_rnd0.
       + exact g_rin0.
-      + intros en' j' v Hin Hs Hd Ho. apply in_app_or in Hin. destruct Hin as [Hin|[<-|[]]].
-        * apply (g_wait0 en' j' v Hin Hs Hd Ho).
+      + intros en' j' Hin Hs Hd. apply in_app_or in Hin. destruct Hin as [Hin|[<-|[]]].
+        * apply (g_wait0 en' j' Hin Hs Hd).
         * (* the new entry: its id is not yet among the processed ones *)
           exfalso. unfold en in Hs. cbn [en_s] in Hs.
           assert (Hj : j' = j) by (destruct m; inversion Hs; reflexivity). subst j'.
@@ -532,8 +494,8 @@ Section E2E.
       + apply Forall_app. split; [exact g_went0|]. constructor; [|constructor]. split; [exact Hwf|exact Hf].
       + rewrite Hacc. exact g_ids0.
       + rewrite Hacc. exact g_split0.
-      + intros en' j' v Hin Hs Hd Ho. apply in_app_or in Hin. destruct Hin as [Hin|[<-|[]]].
-        * apply (g_wait0 en' j' v Hin Hs Hd Ho).
+      + intros en' j' Hin Hs Hd. apply in_app_or in Hin. destruct Hin as [Hin|[<-|[]]].
+        * apply (g_wait0 en' j' Hin Hs Hd).
         * discriminate Hs.
   Qed.
 
@@ -585,51 +547,45 @@ Section E2E.
     { rewrite <- g_split0, g_ids0. apply seq_NoDup. }
     unfold NodeProto.b_read. cbn [b_buf a_nid a_issued a_nores a_pend a_calls a_buf b_log wab wba bad].
     change (feed json prs [TILDE; TILDE; TILDE] (b_buf s) d) with (feed json prs DELIM (b_buf s) d) in Hfeed.
-    rewrite Hfeed. rewrite (b_packets_honest la Hwfla).
-    exists (done ++ la), lb, (R ++ rej la ++ res la).
+    rewrite Hfeed. rewrite (b_packets_honest la Hwfla). rewrite !pick_frames.
+    exists (done ++ la), lb, (R ++ newR la).
     constructor; cbn [a_nid a_calls a_pend bad b_buf wab b_log a_buf wba]; try assumption.
     - rewrite g_bad0. reflexivity.
     - rewrite g_split0, app_assoc. reflexivity.
     - rewrite flat_map_app, g_log0. reflexivity.
-    - rewrite <- frm_app, <- map_app. rewrite (map_app rp R (rej la ++ res la)).
+    - rewrite <- !frm_app, <- !map_app. fold (newR la). rewrite (map_app rp R (newR la)).
       apply f_extend; [apply isobj_rp|exact g_ba0].
     - rewrite map_app. apply NoDup_app_intro; [exact g_rnd0| |].
       + apply NoDup_new. rewrite !map_app in Hnd. apply NoDup_app_right in Hnd.
         apply NoDup_app_left in Hnd. exact Hnd.
       + intros j Hj Hj'. apply in_map_iff in Hj. destruct Hj as [x [<- Hx]].
         apply in_map_iff in Hj'. destruct Hj' as [y [Hy Hin]].
-        destruct (g_rin0 x Hx) as [Hxd _].
-        assert (Hyl : In (fst y) la).
-        { apply in_app_or in Hin. destruct Hin as [Hin|Hin]; [apply in_rej in Hin|apply in_res in Hin]; tauto. }
-        assert (E : fst x = fst y).
+        pose proof (g_rin0 x Hx) as Hxd. apply (proj1 (in_new la y)) in Hin.
+        assert (E : x = y).
         { apply (uniq_fst _ (done ++ la ++ lb)); [exact Hnd| | |symmetry; exact Hy];
-            apply in_or_app; [left; exact Hxd|right; apply in_or_app; left; exact Hyl]. }
-        (* the same element occurs in done and in la: impossible *)
-        rewrite map_app in Hnd. clear -Hnd Hxd Hyl E. rewrite E in Hxd.
+            apply in_or_app; [left; exact Hxd|right; apply in_or_app; left; exact Hin]. }
+        subst y. rewrite map_app in Hnd. clear -Hnd Hxd Hin.
         induction done as [|c done IH]; [destruct Hxd|]. cbn [map app] in Hnd. inversion Hnd as [|? ? Hni Hnd']; subst.
         destruct Hxd as [->|Hxd]; [|apply IH; assumption].
-        apply Hni. apply in_or_app. right. rewrite map_app. apply in_or_app. left. apply in_map. exact Hyl.
-    - intros x Hx. apply in_app_or in Hx. destruct Hx as [Hx|Hx].
-      + destruct (g_rin0 x Hx). split; [apply in_or_app; left|]; assumption.
-      + apply in_app_or in Hx. destruct Hx as [Hx|Hx].
-        * apply in_rej in Hx. destruct Hx as (H1 & H2 & H3). split; [apply in_or_app; right; exact H1|].
-          rewrite H2. apply outcome_rej. exact H3.
-        * apply in_res in Hx. destruct Hx as (H1 & _ & H3). split; [apply in_or_app; right; exact H1|exact H3].
-    - intros en j v Hen Hs Hd Ho. apply in_or_app. apply in_app_or in Hd. destruct Hd as [Hd|Hd].
-      + left. apply (g_wait0 en j v Hen Hs Hd Ho).
-      + right. apply (in_new la (j, en_e en) v Hd Ho).
+        apply Hni. apply in_or_app. right. rewrite map_app. apply in_or_app. left. apply in_map. exact Hin.
+    - intros x Hx. apply in_app_or in Hx. apply in_or_app. destruct Hx as [Hx|Hx].
+      + left. apply (g_rin0 x Hx).
+      + right. apply (proj1 (in_new la x)). exact Hx.
+    - intros en j Hen Hs Hd. apply in_or_app. apply in_app_or in Hd. destruct Hd as [Hd|Hd].
+      + left. apply (g_wait0 en j Hen Hs Hd).
+      + right. apply (proj2 (in_new la _)). exact Hd.
   Qed.
 
   Lemma acc_marks : forall ra ents, acc (marks ra ents) = acc ents.
   Proof.
     induction ra as [|x ra IH]; intros ents; [reflexivity|].
-    cbn [marks fold_left]. fold (marks ra (map (mark (rid x) (snd x)) ents)). rewrite IH. apply acc_mark.
+    cbn [marks fold_left]. fold (marks ra (map (mark (rid x)) ents)). rewrite IH. apply acc_mark.
   Qed.
 
   Lemma sig_marks : forall ra ents, map sig (marks ra ents) = map sig ents.
   Proof.
     induction ra as [|x ra IH]; intros ents; [reflexivity|].
-    cbn [marks fold_left]. fold (marks ra (map (mark (rid x) (snd x)) ents)). rewrite IH.
+    cbn [marks fold_left]. fold (marks ra (map (mark (rid x)) ents)). rewrite IH.
     rewrite map_map. apply map_ext. intros en. unfold mark, sig.
     destruct (en_s en); try reflexivity. destruct (Nat.eqb j (rid x)); reflexivity.
   Qed.
@@ -638,33 +594,25 @@ Section E2E.
     In en ents /\ ~ In j (map rid ra).
   Proof.
     induction ra as [|x ra IH]; intros ents en j Hin Hs; [split; [exact Hin|intros []]|].
-    cbn [marks fold_left] in Hin. fold (marks ra (map (mark (rid x) (snd x)) ents)) in Hin.
+    cbn [marks fold_left] in Hin. fold (marks ra (map (mark (rid x)) ents)) in Hin.
     destruct (IH _ en j Hin Hs) as [Hin' Hni].
-    destruct (in_mark_wait _ _ _ _ _ Hin' Hs) as [Hin0 Hne].
+    destruct (in_mark_wait _ _ _ _ Hin' Hs) as [Hin0 Hne].
     split; [exact Hin0|]. intros [Hx|Hx]; [congruence|contradiction].
   Qed.
 
-  Lemma went_mark : forall j v ents, Forall went ents ->
-    (forall en, In en ents -> en_s en = Wait j -> outcome (en_e en) = Some v) ->
-    Forall went (map (mark j v) ents).
+  Lemma went_mark : forall j ents, Forall went ents -> Forall went (map (mark j) ents).
   Proof.
-    intros j v ents H Ho. rewrite Forall_forall in *. intros en' Hin.
+    intros j ents H. rewrite Forall_forall in *. intros en' Hin.
     apply in_map_iff in Hin. destruct Hin as [en [<- Hen]]. specialize (H en Hen).
     unfold mark. destruct (en_s en) eqn:E; try exact H.
-    destruct (Nat.eqb j0 j) eqn:Ej; [|exact H]. apply Nat.eqb_eq in Ej. subst j0.
-    unfold went in *. rewrite E in H. cbn [en_e en_m en_s]. destruct H as [Hwf [H1 H2]].
-    split; [exact Hwf|]. repeat split; try assumption. apply (Ho en Hen E).
+    destruct (Nat.eqb j0 j) eqn:Ej; [|exact H].
+    unfold went in *. rewrite E in H. cbn [en_e en_m en_s]. exact H.
   Qed.
 
-  Lemma went_marks : forall ra ents, Forall went ents ->
-    (forall x en, In x ra -> In en ents -> en_s en = Wait (rid x) -> outcome (en_e en) = Some (snd x)) ->
-    Forall went (marks ra ents).
+  Lemma went_marks : forall ra ents, Forall went ents -> Forall went (marks ra ents).
   Proof.
-    induction ra as [|x ra IH]; intros ents H Ho; [exact H|].
-    cbn [marks fold_left]. fold (marks ra (map (mark (rid x) (snd x)) ents)). apply IH.
-    - apply went_mark; [exact H|]. intros en Hen Hs. apply (Ho x en (or_introl eq_refl) Hen Hs).
-    - intros y en Hy Hen Hs. destruct (in_mark_wait _ _ _ _ _ Hen Hs) as [Hen0 _].
-      apply (Ho y en (or_intror Hy) Hen0 Hs).
+    induction ra as [|x ra IH]; intros ents H; [exact H|].
+    cbn [marks fold_left]. fold (marks ra (map (mark (rid x)) ents)). apply IH. apply went_mark. exact H.
   Qed.
 
   Lemma gi_ba : forall ents done todo R s d rest, GI ents done todo R s -> wba s = d ++ rest ->
@@ -680,10 +628,10 @@ Section E2E.
     apply map_eq_app in Hsplit. destruct Hsplit as (ra & rb & HR & Hra & Hrb). subst R out exp'.
     change (feed json prs [TILDE; TILDE; TILDE] (a_buf s) d) with (feed json prs DELIM (a_buf s) d) in Hfeed.
     assert (Hndacc : NoDup (map fst (acc ents))) by (rewrite g_ids0; apply seq_NoDup).
-    assert (Hpay : forall x en, In x ra -> In en ents -> en_s en = Wait (rid x) -> en_e en = snd (fst x)).
+    assert (Hpay : forall x en, In x ra -> In en ents -> en_s en = Wait (rid x) -> en_e en = snd x).
     { intros x en Hx Hen Hs.
-      destruct (g_rin0 x (in_or_app _ _ _ (or_introl Hx))) as [Hd _].
-      assert (E : (rid x, en_e en) = fst x).
+      pose proof (g_rin0 x (in_or_app _ _ _ (or_introl Hx))) as Hd.
+      assert (E : (rid x, en_e en) = x).
       { apply (uniq_fst _ (acc ents)); [exact Hndacc|apply (in_acc_wait ents en _ Hen Hs)| |reflexivity].
         rewrite g_split0. apply in_or_app. left. exact Hd. }
       rewrite <- E. reflexivity. }
@@ -698,16 +646,15 @@ Section E2E.
     - reflexivity.
     - apply (filter_pend ents (marks ra ents) (evo_marks ra ents ents (evo_refl ents)) 0 [] eq_refl).
     - rewrite g_bad0. reflexivity.
-    - apply went_marks; [exact g_went0|]. intros x en Hx Hen Hs.
-      rewrite (Hpay x en Hx Hen Hs). apply (g_rin0 x (in_or_app _ _ _ (or_introl Hx))).
+    - apply went_marks. exact g_went0.
     - rewrite acc_marks. exact g_ids0.
     - rewrite acc_marks. exact g_split0.
     - apply (NoDup_app_right _ _ _ g_rnd0).
     - intros x Hx. apply g_rin0. apply in_or_app. right. exact Hx.
-    - intros en j v Hen Hs Hd Ho. destruct (in_marks_wait ra ents en j Hen Hs) as [Hen0 Hni].
-      pose proof (g_wait0 en j v Hen0 Hs Hd Ho) as Hin. apply in_app_or in Hin.
+    - intros en j Hen Hs Hd. destruct (in_marks_wait ra ents en j Hen Hs) as [Hen0 Hni].
+      pose proof (g_wait0 en j Hen0 Hs Hd) as Hin. apply in_app_or in Hin.
       destruct Hin as [Hin|Hin]; [|exact Hin].
-      exfalso. apply Hni. change j with (rid (j, en_e en, v)). apply in_map. exact Hin.
+      exfalso. apply Hni. change j with (rid (j, en_e en)). apply in_map. exact Hin.
   Qed.
 
   (* ---- schedules *)
@@ -776,18 +723,13 @@ Section E2E.
   Proof.
     constructor; cbn; try reflexivity; try (left; auto; fail); try (constructor; fail).
     - intros x [].
-    - intros en j v [].
+    - intros en j [].
   Qed.
 
   (* what the caller's entry for a send must finally hold *)
   Definition exp1 (em : event * smode) : call :=
     let '(e, m) := em in
-    if fw_send e then
-      match m with
-      | MCall => match outcome e with Some v => final e v | None => call0 end
-      | _ => call0
-      end
-    else rej_call m.
+    if fw_send e then match m with MCall => final e | _ => call0 end else rej_call m.
 
   Lemma log_acc : forall ents, Forall went ents ->
     flat_map (fun je => logof (snd je)) (acc ents) =
@@ -822,33 +764,42 @@ Section E2E.
       unfold call_of, exp1, sig. destruct (en_s en) eqn:E.
       + rewrite Hw. reflexivity.
       + destruct Hw as [-> Hm]. destruct (en_m en); [congruence|reflexivity|reflexivity].
-      + destruct Hw as [-> ->]. destruct (outcome (en_e en)) as [v|] eqn:Ho; [|reflexivity].
-        exfalso. apply (g_wait0 en j v Hen E); [|exact Ho].
+      + destruct Hw as [-> ->]. exfalso. apply (g_wait0 en j Hen E).
         rewrite <- g_split0. apply (in_acc_wait ents en j Hen E).
-      + destruct Hw as (-> & -> & ->). reflexivity.
+      + destruct Hw as (-> & ->). reflexivity.
   Qed.
 
   (* reading aids for [exp1] / [logof] *)
-  Lemma exp1_call : forall e r, fw_send e = true -> outcome e = Some r ->
-    exp1 (e, MCall) = final e r /\ c_fin (final e r) = true /\ c_val (final e r) = r.
-  Proof. intros e r Hf Ho. unfold exp1. rewrite Hf, Ho. auto. Qed.
-  Lemma exp1_raise : forall e, fw_send e = true -> outcome e = None -> exp1 (e, MCall) = call0.
-  Proof. intros e Hf Ho. unfold exp1. rewrite Hf, Ho. reflexivity. Qed.
+  Lemma exp1_call : forall e, fw_send e = true ->
+    exp1 (e, MCall) = final e /\ c_fin (final e) = true /\ c_val (final e) = oval e.
+  Proof. intros e Hf. unfold exp1. rewrite Hf. auto. Qed.
+  Lemma final_err : forall e, get k_errors (meta_of e) = None -> c_err (final e) = Some (JBool (oerr e)).
+  Proof. intros e H. unfold final, set_value. cbn [c_err]. rewrite H. reflexivity. Qed.
+  Lemma oval_val : forall e r, fw_recv (ev1 e) = true -> handler (ev2 e) = HVal r -> oval e = r /\ oerr e = false.
+  Proof. intros e r Hf Hh. unfold oval, oerr. rewrite Hf, Hh. auto. Qed.
+  Lemma oval_raise : forall e late, fw_recv (ev1 e) = true -> handler (ev2 e) = HRaise late ->
+    oval e = JERR /\ oerr e = true.
+  Proof. intros e late Hf Hh. unfold oval, oerr. rewrite Hf, Hh. auto. Qed.
+  Lemma oval_null : forall e, fw_recv (ev1 e) = false \/ handler (ev2 e) = HNone -> oval e = JNull /\ oerr e = false.
+  Proof.
+    intros e [Hf|Hh]; unfold oval, oerr; [rewrite Hf; auto|].
+    destruct (fw_recv (ev1 e)); [rewrite Hh|]; auto.
+  Qed.
   Lemma exp1_nores : forall e m, fw_send e = true -> m <> MCall -> exp1 (e, m) = call0.
   Proof. intros e m Hf Hm. unfold exp1. rewrite Hf. destruct m; [congruence|reflexivity|reflexivity]. Qed.
   Lemma exp1_rej : forall e m, fw_send e = false -> exp1 (e, m) = rej_call m.
   Proof. intros e m Hf. unfold exp1. rewrite Hf. reflexivity. Qed.
-  Lemma logof_run : forall e r, fw_recv (ev1 e) = true -> handler (ev2 e) = Some r -> logof e = [ev2 e].
-  Proof. intros e r Hf Hh. unfold logof. rewrite Hf, Hh. reflexivity. Qed.
-  Lemma logof_blocked : forall e, fw_recv (ev1 e) = false -> logof e = [] /\ outcome e = Some JNull.
-  Proof. intros e Hf. unfold logof, outcome. rewrite Hf. auto. Qed.
+  Lemma logof_run : forall e, fw_recv (ev1 e) = true -> handler (ev2 e) <> HNone -> logof e = [ev2 e].
+  Proof. intros e Hf Hh. unfold logof. rewrite Hf. destruct (handler (ev2 e)); [congruence|reflexivity|reflexivity]. Qed.
+  Lemma logof_blocked : forall e, fw_recv (ev1 e) = false -> logof e = [].
+  Proof. intros e Hf. unfold logof. rewrite Hf. reflexivity. Qed.
 End E2E.
 
 (* an honest schedule whose channels are empty at the end (the toy oracles of NodeProtoP.Ex) *)
 Lemma e2e_schedule_ex :
   Forall honest_op [OSend Ex.e0 MCall; OAB 2; OAB 0; OBA 2; OBA 0]
-  /\ wab (Ex.final (fun _ => Some (Some Ex.result)) 2) = []
-  /\ wba (Ex.final (fun _ => Some (Some Ex.result)) 2) = [].
+  /\ wab (Ex.final (fun _ => HVal Ex.result) 2) = []
+  /\ wba (Ex.final (fun _ => HVal Ex.result) 2) = [].
 Proof.
   split; [|vm_compute; auto].
   constructor; [exact (proj1 Ex.e0_wf)|]. repeat constructor.
